@@ -61,7 +61,7 @@ func propC15(a *Analysis, r *Registry) {
 						r.Fail(rB, construct, a.W.InstrPos(st), msg)
 						return
 					}
-					if deg.Equal(idx) || X.EquivByCases(deg, idx, 0) {
+					if deg.Equal(idx) || X.EquivByCases(deg, idx, 0) || sfc.EqualAt(st, deg, idx) {
 						r.OK(rB, construct, a.W.InstrPos(st), "fills termOut[i] with xs[i]^("+clip(deg.String(), 60)+") and is stored at terms["+clip(idx.String(), 60)+"]")
 					} else {
 						r.Fail(rB, construct, a.W.InstrPos(st), "the function stored at terms["+clip(idx.String(), 60)+"] computes the monomial of degree "+clip(deg.String(), 60)+": Coefficients[i] would not multiply x^i")
@@ -186,7 +186,9 @@ func propC15(a *Analysis, r *Registry) {
 			}
 			env.Set("i", tf.Args[1], nil)
 			b.Eq(rB, name+"/term-call/xs", a.W.InstrPos(termCall), tfc.Val(termCall.Call.Args[0]), env, "xs")
-			b.Eq(rB, name+"/term-call/row", a.W.InstrPos(termCall), tfc.Val(termCall.Call.Args[1]), env, "slice(xTVals, i*len(xs), i*len(xs)+len(xs), _)")
+			// (a running offset advanced by len(xs) per term is i*len(xs))
+			b.Eq(rB, name+"/term-call/row", a.W.InstrPos(termCall), tfc.CanonIV(tfc.Val(termCall.Call.Args[1]), tf.Args[1]), env, "slice(xTVals, i*len(xs), i*len(xs)+len(xs), _)")
+			b.FullScan(rB, name+"/term-call/all-terms", a.W.InstrPos(termCall), tfc, tf.Args[1], env.MustParse("len(terms)"))
 			// XTW and the products
 			mul, mulv, solve := one("mat.Dense).Mul"), one("mat.VecDense).MulVec"), one("mat.VecDense).SolveVec")
 			copyXT := S.MakeFn(mat+"DenseCopyOf", XT)
@@ -221,16 +223,8 @@ func propC15(a *Analysis, r *Registry) {
 			} else {
 				e2 := X.EnvFor(fn, "xs", "ys", "weights", "terms")
 				e2.Set("row", rvw.Args[1], nil)
-				ri, rn := fc.Recurrence(rvw.Args[1])
-				b.Eq(rB, name+"/weights/rows", a.W.InstrPos(mev.in), ri.Add(rn), e2, "0+row+1")
-				hdr := X.phiOf[rvw.Args[1].SingleAtom().ID].Block()
-				hfc := X.phiFC[rvw.Args[1].SingleAtom().ID]
-				if ifi, ok := hdr.Instrs[len(hdr.Instrs)-1].(*ssa.If); ok {
-					b.Eq(rB, name+"/weights/all-rows", a.W.InstrPos(ifi), hfc.Val(ifi.Cond), e2, "row<len(terms)")
-				}
-				if !fc.Ctx.Dominates(hdr, mul.in.Block()) {
-					// only on the weighted path; check that the loop cannot be bypassed when weights != nil
-				}
+				// every row 0 … len(terms)-1 is weighted once (in either direction)
+				b.FullScan(rB, name+"/weights/all-rows", a.W.InstrPos(mev.in), mev.fc, rvw.Args[1], e2.MustParse("len(terms)"))
 			}
 			// guards
 			acc := S.False()
